@@ -84,6 +84,8 @@ def seq_families(tier):
     for kind in ("merge", "concat", "combine"):
         F[kind + "2_2s"] = (scen.with_bounds(scen.nary(kind, 2), kind, **tb), None)
     F["take1_2s"] = (scen.with_bounds(scen.unary("take", n=1), "take", **dict(tb, maxPull=1)), None)
+    # two subscriptions whose members only end: every member of both runs can complete (five top-level actions)
+    F["concat2_2s_ends"] = (scen.with_bounds(scen.nary("concat", 2), "concat", **dict(tb, maxData=0, maxTop=5, allowFail=False)), None)
     nb = dict(maxData=1 if q else 2, maxTop=3, maxPull=1, allowFail=True)
     nb3 = dict(maxData=1, maxTop=2 if q else 3, maxPull=1, allowFail=True)
     nbig = dict(maxData=3, maxTop=6, maxPull=3, allowFail=True, sinkErr=True)
@@ -149,6 +151,9 @@ def plan(prop, tier):
                 scen.with_bounds({"nodes": [{"id": 1, "kind": "merge", "ups": []}], "root": 1}, "merge", **eb),
                 scen.with_bounds({"nodes": [{"id": 1, "kind": "concat", "ups": []}], "root": 1}, "concat", **eb)]
         fams.append(("edge", edge, None))
+        # the sources of the crate by themselves (the properties speak about "every source and operator")
+        fams += [f for f in plan("C15", tier) if f[0] in ("fromiter", "fromiter_serr", "fromiter_r2")]
+        fams += [f for f in plan("C16", tier) if f[0] in ("interval_p1_s1", "interval_p1_s2")]
         if prop == "C01":
             # sinks of a shared source that make each other attach / pull / detach from inside their handlers
             # (for C02-C04 this family only adds further variants of finding F2: snapshot fan-out)
